@@ -22,6 +22,8 @@ pub struct Flat {
     pub inl: Vec<usize>,
     /// symbol ids of the visible extras (tokens and rules)
     pub extras: Vec<usize>,
+    /// number of variables that are rules of the grammar (the others: auxiliary repeats, copies under an alias)
+    pub n_orig: usize,
 }
 
 struct Cx<'a> {
@@ -40,14 +42,10 @@ struct Cx<'a> {
     phantom: Vec<StepR>,
 }
 
-fn is_lexical(cx: &Cx, v: &Value, depth: usize) -> bool {
-    if depth > 50 { return false; }
-    match v["type"].as_str().unwrap_or("") {
-        "STRING" | "PATTERN" | "TOKEN" | "IMMEDIATE_TOKEN" | "BLANK" => true,
-        "SEQ" | "CHOICE" => v["members"].as_array().map(|a| a.iter().all(|m| is_lexical(cx, m, depth + 1))).unwrap_or(false),
-        "REPEAT" | "REPEAT1" | "PREC" | "PREC_LEFT" | "PREC_RIGHT" | "PREC_DYNAMIC" => is_lexical(cx, &v["content"], depth + 1),
-        _ => false,
-    }
+/// extract_tokens turns a rule into a token (a lexical variable) only when its whole body is ONE token: a string, a
+/// pattern or a `token(...)`; `seq('a', 'b')` stays a syntactic rule with two anonymous children
+fn is_lexical(_cx: &Cx, v: &Value, _depth: usize) -> bool {
+    matches!(v["type"].as_str().unwrap_or(""), "STRING" | "PATTERN" | "TOKEN" | "IMMEDIATE_TOKEN")
 }
 
 impl<'a> Cx<'a> {
@@ -219,6 +217,7 @@ pub fn flatten(grammar_json: &str) -> Result<Flat, String> {
         var_prods.push(ps);
     }
     if var_names.is_empty() { return Err("no syntactic rule".into()); }
+    let n_orig = var_names.len();
     for (n, ps) in cx.aux.clone() { var_names.push(n); var_prods.push(ps); }
     // clones for aliased rules
     let mut var_kind: Vec<(char, String)> = var_names.iter().map(|n| {
@@ -310,5 +309,5 @@ pub fn flatten(grammar_json: &str) -> Result<Flat, String> {
     let roots = (0..prods.len()).filter(|v| used[*v]).collect();
     let mut extras = Vec::new();
     for e in &extra_refs { extras.push(resolve(&StepR { sym: e.clone(), field: None, alias: None })?); }
-    Ok(Flat { syms, prods, roots, inl, extras })
+    Ok(Flat { syms, prods, roots, inl, extras, n_orig })
 }
